@@ -183,7 +183,7 @@ fn run_one_inner(args: &Args, prof: &Profile, run: u64, rep: &mut Report, make_m
 		seed[9..17].copy_from_slice(&run.to_le_bytes());
 		let mut user = user_config(&mut rng, ctype);
 		user.channel_config.max_dust_htlc_exposure = dust_exposure;
-		if prof.pay_workload {
+		if prof.pay_workload || prof.deadline_sweep {
 			// LSP-style flows: forwards over intercept scids, recipients that accept a withheld fee
 			user.htlc_interception_flags = 1;
 			user.channel_config.accept_underpaying_htlcs = true;
